@@ -465,6 +465,20 @@ fn run_inner(r: &C20Replay, stats: &mut Stats, sample: Option<&mut Vec<String>>)
     if let Some(s) = sample {
         *s = log.clone();
     }
+    // (b') fixed::Element::xotify of the document element alone must equal the document element
+    let be = fx_elem(&d.root).xotify(&mut x);
+    match (x.document_element(b), canon_of(&x, be)) {
+        (Ok(de), Ok(ce)) => {
+            let mut budget = NODE_LIMIT;
+            let sub = crate::world::read_tree(&x, b, true, &mut budget).ok().and_then(|t| t.kids.into_iter().find(|k| k.node == de));
+            let cd = sub.map(|t| canon_r(&t)).unwrap_or_default();
+            if cd != ce || !x.deep_equal(de, be) {
+                return Some(v("routes-differ", format!("fixed::Element::xotify gives {} but the document element of fixed::Document::xotify is {}", ce, cd)));
+            }
+        }
+        (_, Err(viol)) => return Some(v("routes-differ", format!("fixed::Element::xotify: {}", viol.msg))),
+        (Err(e), _) => return Some(v("routes-differ", format!("fixed::Document::xotify has no document element: {:?}", e))),
+    }
     let routes = [("parse", a), ("fixed::xotify", b), ("stepwise", c)];
     let mut strings = vec![];
     for (name, root) in routes.iter() {
@@ -525,7 +539,7 @@ impl PropEngine for C20Engine {
         if thorough {
             3_000_000
         } else {
-            60_000
+            300_000
         }
     }
     fn run_one(&self, run_index: u64, run_seed: u64, _known: &KnownFile, stats: &mut Stats) -> Option<EngineFailure> {
@@ -600,7 +614,7 @@ impl PropEngine for C20Engine {
         run_replay(&r, stats, None)
     }
     fn rule(&self) -> String {
-        "Abstract documents (generator shared with the other checks: namespaces with usable prefixes incl. default and shadowing, attributes, text, CDATA in the rendering, comments, PIs, leading and trailing top-level comments/PIs) are realised (a) by parsing a rendering, (b) through fixed::Document::xotify, (c) stepwise under a seeded schedule: a linear extension of the build plan (create before attach; declarations and attributes in relative order, otherwise anywhere — before or after children, interleaved), per attachment a seeded choice among append / any_append / prepend / insert_after(left sibling) / insert_before(right sibling) / new_document_with_element, per declaration/attribute among the map-style and node-style calls; text nodes are either kept from becoming transiently adjacent or consolidation is switched off for the build. All three read-backs must equal the abstract document (incl. declarations per element and the placement of leading/trailing content), deep_equal pairwise, to_string identical, and the text must reparse to the abstract document. Distinct = distinct (document, schedule) digest; non-trivial = at least 4 nodes.".to_string()
+        "Abstract documents (generator shared with the other checks: namespaces with usable prefixes incl. default and shadowing, attributes, text, CDATA in the rendering, comments, PIs, leading and trailing top-level comments/PIs) are realised (a) by parsing a rendering, (b) through fixed::Document::xotify (and fixed::Element::xotify of the root element alone, which must equal the document element), (c) stepwise under a seeded schedule: a linear extension of the build plan (create before attach; declarations and attributes in relative order, otherwise anywhere — before or after children, interleaved), per attachment a seeded choice among append / any_append / prepend / insert_after(left sibling) / insert_before(right sibling) / new_document_with_element, per declaration/attribute among the map-style and node-style calls; text nodes are either kept from becoming transiently adjacent or consolidation is switched off for all three routes; 12% of the scheduling points inject a call that must be refused (new_document_with_element of a non-element, append under a leaf, append of the document node, insert_after(x, x)) and must change nothing. All three read-backs must equal the abstract document (incl. declarations per element and the placement of leading/trailing content), deep_equal pairwise, to_string identical, and the text must reparse to the abstract document. Distinct = distinct (document, schedule) digest; non-trivial = at least 4 nodes.".to_string()
     }
     fn assumptions(&self) -> Vec<String> {
         vec![
